@@ -350,3 +350,19 @@ func C20_TwoNewBatches() { focus = "C20"; sceneTwoNewBatches() }
 func C16_DoubleSlash()   { focus = "C16"; sceneDoubleSlash() }
 func C11_DoubleSlash()   { focus = "C11"; sceneDoubleSlash() }
 func C08_DoubleSlash()   { focus = "C08"; sceneDoubleSlash() }
+
+// ---- bindings that fell below a raised minimum; promotions in updates
+func C14_UpdateAfterParamChange() {
+	focus = "C14"
+	sceneBindingMsg(opUpdBinding, BindOpts{AnyDeposit: true})
+}
+func C14_EnableAfterParamChange() {
+	focus = "C14"
+	sceneBindingMsg(opEnable, BindOpts{AnyDeposit: true})
+}
+func C15_UpdatePromotions() { focus = "C15"; sceneBindingMsg(opUpdBinding, BindOpts{NT: 1, NV: 1}) }
+func C09_TwoNewBatches()    { focus = "C09"; sceneTwoNewBatches() }
+func C05_TwoNewBatches()    { focus = "C05"; sceneTwoNewBatches() }
+
+// C18: every prefix scan behind a list query returns exactly the records of its subject
+func C18_Scans() { focus = "C18"; sceneQuery(qrQuick) }
